@@ -33,6 +33,8 @@ func verifVFSRoot() string
 func verifVFSPut(name string, content []byte)
 func verifVFSDel(name string)
 func verifVFSList() []string
+func verifVFSLink(name string, target string)
+func verifVFSIsLink(name string) bool
 func verifTask(name string, notification bool)
 func verifSched(explore bool)
 func verifMapOrder(explore bool)
@@ -229,6 +231,22 @@ var intrinsics = map[string]extFn{
 		}
 		e.vfs[name] = append([]value(nil), a[1].([]value)...)
 		return nil
+	},
+	// verifVFSLink(name, target): name is a symbolic link to the virtual file target (reads go to its content)
+	"verifVFSLink": func(e *Engine, _ *frame, _ *ssa.Function, a []value) value {
+		name, target := e.needStr(a[0], "verifVFSLink"), e.needStr(a[1], "verifVFSLink")
+		if e.vfs == nil {
+			e.vfs = map[string][]value{}
+		}
+		if e.vfsLinks == nil {
+			e.vfsLinks = map[string]bool{}
+		}
+		e.vfs[name] = append([]value(nil), e.vfs[target]...)
+		e.vfsLinks[name] = true
+		return nil
+	},
+	"verifVFSIsLink": func(e *Engine, _ *frame, _ *ssa.Function, a []value) value {
+		return e.vfsLinks[e.needStr(a[0], "verifVFSIsLink")]
 	},
 	"verifVFSDel": func(e *Engine, _ *frame, _ *ssa.Function, a []value) value {
 		delete(e.vfs, e.needStr(a[0], "verifVFSDel"))
